@@ -237,6 +237,9 @@ func (ex *Exec) stub(st *State, fr *Frame, fn *ssa.Function, args []Value, isDef
 		return TupleV{ts.Const(64, 0), IfaceV{}}, true
 	case "math.Float64bits", "math.Float64frombits", "math.Float32bits", "math.Float32frombits":
 		return args[0], true
+	case "errors.As":
+		ex.stats.Stubs[full]++
+		return ex.errorsAs(st, args[0].(IfaceV), args[1].(IfaceV)), true
 	case "internal/reflectlite.TypeOf":
 		iv := args[0].(IfaceV)
 		return IfaceV{T: iv.T, V: OpaqueV{"rtype:"}}, true
@@ -609,4 +612,83 @@ func (ex *Exec) intrinsic(st *State, fr *Frame, name string, args []Value) Value
 		return unit
 	}
 	panic("internal: unknown intrinsic " + name)
+}
+
+// errorsAs models errors.As for targets that are pointers to a concrete or interface type: the chain
+// is walked through Unwrap() error methods (executed synchronously; they must not fork).
+func (ex *Exec) errorsAs(st *State, err IfaceV, target IfaceV) Value {
+	ts := ex.ts
+	pt, ok := target.T.(*types.Pointer)
+	if !ok || target.T == nil {
+		ex.check(st, ts.True, "panic", "errors: target must be a non-nil pointer")
+	}
+	want := pt.Elem()
+	tp := target.V.(PtrV)
+	for depth := 0; depth < 32; depth++ {
+		if err.T == nil {
+			return ts.False
+		}
+		if iface, isIface := want.Underlying().(*types.Interface); isIface {
+			if types.Implements(err.T, iface) {
+				ex.store(st, tp, err, want)
+				return ts.True
+			}
+		} else if types.Identical(err.T, want) {
+			ex.store(st, tp, err.V, want)
+			return ts.True
+		}
+		sel := ex.prog.MethodSets.MethodSet(err.T).Lookup(nil, "Unwrap")
+		if sel == nil {
+			return ts.False
+		}
+		fn := ex.prog.MethodValue(sel)
+		if fn == nil || fn.Signature.Results().Len() != 1 {
+			return ts.False
+		}
+		res := ex.callSync(st, fn, []Value{err.V})
+		next, ok := res.(IfaceV)
+		if !ok {
+			return ts.False
+		}
+		err = next
+	}
+	panic(unsupported("errors.As: chain too long"))
+}
+
+// callSync runs fn to completion inside the current instruction (no forking allowed).
+func (ex *Exec) callSync(st *State, fn *ssa.Function, args []Value) Value {
+	depth := len(st.frames)
+	nwork := len(ex.work)
+	fr := ex.pushFrame(st, fn, args, nil)
+	fr.isDefer = true // result is not assigned to any instruction of the caller
+	var result Value
+	for len(st.frames) > depth {
+		top := st.top()
+		in := top.block.Instrs[top.ip]
+		if ret, ok := in.(*ssa.Return); ok && len(st.frames) == depth+1 {
+			switch len(ret.Results) {
+			case 0:
+				result = TupleV{}
+			case 1:
+				result = ex.get(st, top, ret.Results[0])
+			default:
+				tu := make(TupleV, len(ret.Results))
+				for i, r := range ret.Results {
+					tu[i] = ex.get(st, top, r)
+				}
+				result = tu
+			}
+			st.frames = st.frames[:depth]
+			break
+		}
+		saved := st.taken
+		st.taken = nil
+		ex.exec(st, top, in)
+		st.taken = saved
+		ex.stats.Instrs++
+		if len(ex.work) != nwork {
+			panic(unsupported("fork inside a synchronous helper call (" + fn.String() + ")"))
+		}
+	}
+	return result
 }
